@@ -607,7 +607,10 @@ def r4_ring(prog, rep: Report):
     write_i = adv_i = None
     for k, st in enumerate(stmts):
         if isinstance(st, ast.Assign) and isinstance(st.targets[0], ast.Subscript) and src(st.value) == e:
-            d = dotted(st.targets[0].slice)
+            sl_ = st.targets[0].slice
+            if isinstance(sl_, ast.Name):
+                sl_ = Flow(p.node).expand(sl_)             # write_at = self._offset; self._buffer[write_at] = e
+            d = dotted(sl_)
             if d and len(d) == 2 and d[0] == p.self_name:
                 off_field = d[1]
                 write_i = k
